@@ -293,7 +293,7 @@ let () =
            (match secs with
             | [name; b; _] ->
               hid := "conversions"; opno := 0; header := ""; cur := name; bump_count "conversion_cases";
-              if b <> "same" then report_spec ~prop:"C13" ~pred:"conversions_like_std" ~detail:(String.map (fun c -> if c = ' ' then '_' else c) (name ^ ":" ^ b))
+              if b <> "same" then report_spec ~prop:(if starts_with name "Q box_" then "C17" else "C13") ~pred:"conversions_like_std" ~detail:(String.map (fun c -> if c = ' ' then '_' else c) (name ^ ":" ^ b))
             | _ -> ())
          | 'R' ->
            (* C18 growth probes: R name es=.. .. reallocs|moved=<k> bound=<b> *)
